@@ -37,9 +37,11 @@ CHECKS["C09"] = dict(
     text="XPathSem!Matches is the XSLT 5.2 definition itself (exists an ancestor-or-self from which the pattern, evaluated as an expression, selects the node). "
          "Systematic and seeded random patterns ('/', '//', positional/boolean/nested predicates, every node test, id() heads, unions) are compiled with "
          "initMatchPattern and XPath::getMatchScore is asked for EVERY node of each document; TLC recomputes the match set from the definition and compares the sets.",
-    note="Trusted: TLC, renderer, node-id projection. Known deviations of Xalan's right-to-left matcher are attributed by syntactic feature + error direction "
-         "(see known_findings.jsonl); stylesheet-level uses of patterns are exercised in C10/C15/C17.",
-    technique="TLA+ definition of pattern matching evaluated by TLC; trace validation of getMatchScore over all nodes")
+    note="Trusted: TLC, renderer, node-id projection. PatternMatcherImpl.tla transcribes Xalan's right-to-left matcher (op-code compilation, stepPattern, "
+         "doStepPredicate/handleFoundIndex); MC_Pattern checks it equals the definition except in named KD classes, each shown real. A rejected event is a KNOWN finding only "
+         "if the recorded set equals the transcription's result and every differing node falls in a named class; anything else is a violation. "
+         "Stylesheet-level uses of patterns are exercised in C10/C15/C17.",
+    technique="TLA+ definition of pattern matching as oracle (TLC trace validation over all nodes) + implementation-shaped matcher model checked against it and used for exact triage")
 
 CHECKS["C10"] = dict(
     category="model_checking", design_ref="DESIGN.md §5 C10",
